@@ -238,8 +238,9 @@ func loadEngine(pkgs []string) (*gosym.Engine, error) {
 // ------------------------------------------------------------------ native
 
 type nativeRunner struct {
-	dir  string
-	bins map[string]string
+	dir      string
+	bins     map[string]string
+	overlays map[string]string
 }
 
 func newNativeRunner() *nativeRunner {
@@ -247,7 +248,59 @@ func newNativeRunner() *nativeRunner {
 	if err != nil {
 		panic(err)
 	}
-	return &nativeRunner{dir: dir, bins: map[string]string{}}
+	return &nativeRunner{dir: dir, bins: map[string]string{}, overlays: map[string]string{}}
+}
+
+// runRace confirms a predicted map race: the harness package is built with the
+// Go race detector, the harness runs its two threads in two goroutines
+// (VERIF_RACE), and the detector's reports are searched for one whose stacks go
+// through a runtime map operation and both predicted functions.
+func (n *nativeRunner) runRace(rel, harness, replayPath, fnA string, fnBs []string) (bool, string, error) {
+	if _, err := n.build(rel); err != nil {
+		return false, "", err
+	}
+	key := rel + "|race"
+	bin, ok := n.bins[key]
+	if !ok {
+		bin = filepath.Join(filepath.Dir(n.overlays[rel]), "replay.race.test")
+		cmd := exec.Command("go", "test", "-race", "-c", "-vet=off", "-o", bin, "-overlay", n.overlays[rel], "./"+rel)
+		cmd.Dir = repoDir
+		cmd.Env = append(append(os.Environ(), goEnv...), "CGO_ENABLED=1")
+		if out, err := cmd.CombinedOutput(); err != nil {
+			return false, "", fmt.Errorf("race-detector build of %s failed: %v\n%s", rel, err, out)
+		}
+		n.bins[key] = bin
+	}
+	detail := ""
+	for attempt := 0; attempt < 16; attempt++ {
+		cmd := exec.Command(bin, "-test.run", "^TestVerifReplay$", "-test.v", "-test.timeout", "300s")
+		cmd.Dir = filepath.Join(repoDir, rel)
+		// the block step arrives at a different phase of the repeated query in every attempt
+		cmd.Env = append(os.Environ(), "VERIF_REPLAY="+replayPath, "VERIF_HARNESS="+harness, "VERIF_RACE=1",
+			fmt.Sprintf("VERIF_RACE_DELAY_MS=%d", 150+attempt*37), "GORACE=halt_on_error=0 history_size=5")
+		out, _ := cmd.CombinedOutput()
+		text := string(out)
+		if strings.Contains(text, "concurrent map") && strings.Contains(text, "fatal error") {
+			return true, "the Go runtime aborted with a concurrent map access fatal error", nil
+		}
+		for _, block := range strings.Split(text, "==================") {
+			if !strings.Contains(block, "DATA RACE") || !strings.Contains(block, "runtime.map") {
+				continue
+			}
+			if strings.Contains(block, fnA+"(") || strings.Contains(block, fnA+".func") {
+				for _, fnB := range fnBs {
+					if strings.Contains(block, fnB+"(") || strings.Contains(block, fnB+".func") {
+						return true, "race detector report through " + fnA + " and " + fnB, nil
+					}
+				}
+			}
+		}
+		detail = fmt.Sprintf("%d race reports, none through %s and one of %v", strings.Count(text, "DATA RACE"), fnA, fnBs)
+		if p := os.Getenv("VERIF_RACE_LOG"); p != "" {
+			os.WriteFile(p, out, 0o644)
+		}
+	}
+	return false, detail, nil
 }
 
 func (n *nativeRunner) cleanup() { os.RemoveAll(n.dir) }
@@ -291,6 +344,7 @@ func (n *nativeRunner) build(rel string) (string, error) {
 	ovPath := filepath.Join(sub, "overlay.json")
 	os.WriteFile(ovPath, ov, 0o644)
 	bin := filepath.Join(sub, "replay.test")
+	n.overlays[rel] = ovPath
 	cmd := exec.Command("go", "test", "-c", "-vet=off", "-o", bin, "-overlay", ovPath, "./"+rel)
 	cmd.Dir = repoDir
 	cmd.Env = append(os.Environ(), goEnv...)
@@ -396,6 +450,30 @@ func cmdReplay(args []string) int {
 	}
 	nr := newNativeRunner()
 	defer nr.cleanup()
+	if strings.HasPrefix(rf.Label, "C25:no-map-race ") {
+		sides := strings.SplitN(strings.TrimPrefix(rf.Label, "C25:no-map-race "), " ~ ", 2)
+		fnOf := func(s string) string {
+			if f := strings.Fields(s); len(f) >= 2 {
+				return f[1]
+			}
+			return s
+		}
+		if len(sides) != 2 {
+			fmt.Fprintln(os.Stderr, "malformed race label")
+			return 2
+		}
+		ok, detail, err := nr.runRace(rf.Package, rf.Harness, args[0], fnOf(sides[0]), raceFns(sides[1]))
+		if err != nil {
+			fmt.Fprintln(os.Stderr, err)
+			return 2
+		}
+		if ok {
+			fmt.Printf("REPRODUCED property=%s harness=%s label=%s (%s)\n", rf.Property, rf.Harness, rf.Label, detail)
+			return 1
+		}
+		fmt.Println("not reproduced:", detail)
+		return 0
+	}
 	v, err := nr.run(rf.Package, rf.Harness, args[0])
 	if err != nil {
 		fmt.Fprintln(os.Stderr, err)
@@ -530,4 +608,16 @@ func short(s string, n int) string {
 		return s[:n] + "…"
 	}
 	return s
+}
+
+// raceFns extracts the function names from the block-thread side of a
+// "C25:no-map-race" label: "write f [locks] | read g [locks]".
+func raceFns(side string) []string {
+	var out []string
+	for _, item := range strings.Split(side, " | ") {
+		if f := strings.Fields(item); len(f) >= 2 {
+			out = append(out, f[1])
+		}
+	}
+	return out
 }
